@@ -279,10 +279,22 @@ FlagBuckets(k) == { [k |-> "bucket", kind |-> k, fam |-> "flags", hi |-> TRUE, G
                             <<a, b>> \in {p \in Flags(k) \X Flags(k) : Tier = "thorough" \/ p[1] = p[2]} }
 SlotBuckets(k) == { [k |-> "bucket", kind |-> k, fam |-> "slot", x |-> x] : x \in Slots(k) }
 NumBuckets(k)  == { [k |-> "bucket", kind |-> k, fam |-> "num", x |-> x] : x \in DOMAIN BaseN }
-Buckets        == UNION { FlagBuckets(k) \cup SlotBuckets(k) \cup NumBuckets(k) : k \in {"http", "grpc"} }
+\* thorough tier: two neighbouring slots substituted at once (key and value of one entry, two keys of one map, two
+\* entries of one list, ...) with distinct core tokens
+SlotPairs(k)   == IF k = "http"
+                  THEN { <<"h_k1", "h_v1">>, <<"h_k1", "h_k2">>, <<"var_k1", "var_v1">>, <<"ab_1", "ab_2">>, <<"pre_k", "pre_v">>,
+                         <<"csv_f1", "csv_f2">>, <<"uri", "body">> }
+                  ELSE { <<"h_k1", "h_v1">>, <<"h_k1", "h_k2">>, <<"ab_1", "ab_2">>, <<"pre_k", "pre2_k">>, <<"call", "payload">> }
+\* the two tokens behind known findings (design/C16.md) are left to the single substitutions
+PairTokens     == (Tokens \cap CoreTokens) \ {"T_merge", "T_ls"}
+Slot2Buckets(k) == IF Tier = "thorough"
+                   THEN { [k |-> "bucket", kind |-> k, fam |-> "slot2", x |-> p[1], y |-> p[2]] : p \in SlotPairs(k) } ELSE {}
+Buckets        == UNION { FlagBuckets(k) \cup SlotBuckets(k) \cup NumBuckets(k) \cup Slot2Buckets(k) : k \in {"http", "grpc"} }
 CasesIn(b)     == CASE b.fam = "flags" -> FullOn(BaseKey(b.kind, b.hi), b.G)
                     [] b.fam = "slot"  -> { [BaseKey(b.kind, TRUE) EXCEPT !.s[b.x] = t] : t \in SlotTokens(b.kind, b.x) }
                     [] b.fam = "num"   -> { [BaseKey(b.kind, TRUE) EXCEPT !.n[b.x] = v] : v \in NumAlts[b.x] }
+                    [] b.fam = "slot2" -> { [BaseKey(b.kind, TRUE) EXCEPT !.s[b.x] = q[1], !.s[b.y] = q[2]] :
+                                              q \in {r \in PairTokens \X PairTokens : r[1] # r[2]} }
 Cases          == UNION { CasesIn(b) : b \in Buckets }
 
 \* ---------------------------------------------------------------- design-level state machine: one state per case
